@@ -141,6 +141,43 @@ func (f *frame) external(n *node, callee *ssa.Function, full string, args []Val,
 			return Val{T: rt, C: []string{t}}, true
 		}
 	}
+	// reflect.Value: observers are uninterpreted functions of the (opaque) value and the
+	// arguments; setters are not modelled (their effect is on memory the engine does not
+	// see) - contracts constrain the arguments they are called with (atcall)
+	if strings.HasPrefix(full, "(reflect.Value).") && len(args) >= 1 && len(args[0].C) == 1 {
+		name := strings.TrimPrefix(full, "(reflect.Value).")
+		x.note("trusted: reflect.Value observers are pure functions of the value and their arguments; reflect setters are not modelled")
+		x.g.Raw("sort:"+opaqueSort("reflect.Value"), "(declare-sort "+opaqueSort("reflect.Value")+" 0)")
+		if strings.HasPrefix(name, "Set") {
+			return Val{T: rt}, true
+		}
+		rc := x.comps(rt)
+		if _, isBasic := rt.Underlying().(*types.Basic); isBasic && len(rc) == 1 && !isString(rt) {
+			var terms, sorts []string
+			okArgs := true
+			for _, a := range args {
+				cs := x.comps(a.T)
+				if len(cs) != 1 || len(a.C) != 1 {
+					okArgs = false
+					break
+				}
+				terms = append(terms, a.C[0])
+				sorts = append(sorts, cs[0].sort)
+			}
+			if okArgs {
+				fn := g.Fun("reflect:"+name, sorts, rc[0].sort)
+				return Val{T: rt, C: []string{g.Fresh(rc[0].sort, "("+fn+" "+strings.Join(terms, " ")+")")}}, true
+			}
+		}
+		if _, isIface := rt.Underlying().(*types.Interface); isIface && name == "Type" {
+			return x.nonNilError(rt, "reflect.Type"), true // the type of a value is never nil
+		}
+		return x.havocResult(rt, "reflect."+name), true
+	}
+	if full == "reflect.TypeOf" {
+		x.note("trusted: reflect.TypeOf of a non-nil value is a non-nil Type")
+		return x.nonNilError(rt, "reflect.TypeOf"), true
+	}
 	if r, ok := f.bigIntModel(n, callee, full, args, in); ok {
 		return r, true
 	}
